@@ -81,7 +81,9 @@ GrowSizes(kind, tier) ==
       [] kind = "condy_uses" -> {1, 100, 16000}                                  \* a tree of 4095 constants loaded k times by one method
       [] kind = "ifc_args" -> {1, 126, 127, 128, 200, 255}
       [] kind = "method_args" -> {127, 128, 255, 256}
+      [] kind = "ifc_baddesc" -> 0..9                 \* index into a list of strings that are no method descriptors
       [] kind = "labels" -> {0, 1, 2}             \* 0: every pc has a line number; 1: plus an exception range ending at code_length; 2: plus a local variable ending there
+      [] kind \in {"tiny_unknown_nest", "tinydiff_unknown_nest"} -> {1, 50, 2000, 6000, 14000}
       [] kind \in {"enigma_nest", "tiny_nest"} -> {1, 50, 2000, 6000} \cup (IF tier = 0 THEN {} ELSE {12000})      \* the text grows with the square
       [] kind \in {"fdesc_dims", "mdesc_dims"} -> {254, 255, 256, 100000}
       [] kind = "desc_args" -> {255, 256, 100000}
